@@ -139,7 +139,7 @@ CLAIMS = {
             "legacy chain-id bound. Model vs the library through every numeric field of every kind on every run; the exactness clause "
             "is additionally evaluated on the literal TEXT with exact rationals (known finding K1: float literals with > 15 significant "
             "digits are rounded by serde_json before hdwallet sees them).",
-            "serde_json tokenisation is outside the model (the model receives serde_json's own parse); ethnum/hex/ethaddr semantics as stated in Model/Num.v."),
+            "Props/C13j.v: at the level of the JSON text (Model/JsonText.v) a plain decimal literal below 2^64 is read as exactly that integer and objects become maps (last duplicate wins); serde_json's floating-point reader is a parameter of the model (compared up to 2 ulp on every run, not modelled); ethnum/hex/ethaddr semantics as stated in Model/Num.v."),
     "C16": ("Coq theorems (Props/C16.v, all primitives universally quantified): the account selector (default = index 0 = m/44'/60'/0'/0/0, "
             "index i < 2^31 -> m/44'/60'/0'/0/i, larger refused, --hd-path parsed); address/export/public-key print exactly the EIP-55 "
             "address / 0x secret / uncompressed key of private_key(phrase, passphrase, selector); every sign subcommand prints the "
@@ -151,7 +151,7 @@ CLAIMS = {
     "C17": ("Coq theorems (Props/C17.v): for every parser and command model — phrases, to_phrase, random, HD paths, account indices, "
             "signatures, keys, derivation, transaction JSON, encoding, the sign command, v, RLP headers, number/byte fields, member type "
             "strings with any number of suffixes, the encodeType work-list (fuel), domain check, typed-data values and documents, hex "
-            "input, vanity prefixes — no Panic and no OutOfFuel outcome is reachable (every unwrap/index/slice/overflow site is an explicit "
+            "input, vanity prefixes, and (Props/C17j.v) the JSON text reader with the pipeline bytes -> JSON -> transaction — no Panic and no OutOfFuel outcome is reachable (every unwrap/index/slice/overflow site is an explicit "
             "Panic branch in the model) — partial: the compiled binary's stack and wall-clock behaviour are only exercised. "
             "Every entry point is driven with boundary, structure-aware mutated and random inputs under catch_unwind and by exit status "
             "on every run (debug build; release too in the thorough tier).",
